@@ -31,6 +31,8 @@ def run(ctx):
     ctx.translate("templates", templates.run, os.path.join(ctx.work, "gen"),
                   os.path.join(ctx.work, "templates.json"))
     ctx.translate("fusers", templates.run_fusers, os.path.join(ctx.work, "gen"), os.path.join(ctx.work, "fusers.json"))
+    fingerprint.check(ctx, "packages/circuit/quri_parts/circuit/transpile/unitary_matrix_decomposer.py",
+                      ["SingleQubitUnitaryMatrix2RYRZTranspiler.decompose"])
     fingerprint.check(ctx, "packages/circuit/quri_parts/circuit/transpile/fuse.py",
                       ["NormalizeRotationTranspiler._normalize", "NormalizeRotationTranspiler.decompose"])
     ctx.translate("native-templates", templates.run_native, os.path.join(ctx.work, "gen"),
